@@ -256,6 +256,37 @@ func c13(w *core.World, r *core.Report) {
 		r.Check(!skip, "EVERY-ENTRY-WRITTEN", core.Site(store, "Modify#%d depends on failures only", i), w.InstrPos(m), fmt.Sprintf("an iteration can reach the next one without writing the entry and without a failure (blocks %v)", tr))
 	}
 
+	// whether a notification is handed to a writer at all is not decided by its updates alone: a notification that
+	// carries only deletes (the gNMI encoding of a removal on an on-change stream) is content
+	for _, c := range core.Calls(syncFn) {
+		g, isGo := c.(*ssa.Go)
+		if !isGo || !core.CalleeIs(g, "datastore.Datastore.storeSyncMsg") {
+			continue
+		}
+		bad := false
+		core.WithHost(syncFn, func() {
+			for _, cond := range core.ControlConds(g) {
+				sl := core.BackwardSlice(syncFn, []ssa.Value{cond}, nil)
+				upd, del := sl.HasCallTo("github.com/sdcio/sdc-protos/sdcpb.Notification.GetUpdate"), sl.HasCallTo("github.com/sdcio/sdc-protos/sdcpb.Notification.GetDelete")
+				// a predicate of the package that is part of Sync: what its result is computed from
+				core.WithoutInlining(func() {
+					v, _ := core.StripNot(cond)
+					if pc, ok := v.(*ssa.Call); ok {
+						if h := pc.Call.StaticCallee(); h != nil && h.Blocks != nil && core.PkgPath(h) == core.PkgPath(syncFn) {
+							hs := core.ReturnSlice(h, -1)
+							upd = upd || hs.HasCallTo("github.com/sdcio/sdc-protos/sdcpb.Notification.GetUpdate")
+							del = del || hs.HasCallTo("github.com/sdcio/sdc-protos/sdcpb.Notification.GetDelete")
+						}
+					}
+				})
+				if upd && !del {
+					bad = true
+				}
+			}
+		})
+		r.Check(!bad, "EVERY-ENTRY-WRITTEN", core.Site(syncFn, "hand-off to the writer not decided by the updates alone"), w.InstrPos(g), "whether the notification reaches storeSyncMsg depends on its updates but not on its deletes: a delete-only notification is dropped and the removed entry stays in the mirror")
+	}
+
 	// ---- PRUNE-BRACKET
 	r.Rule("PRUNE-BRACKET", 4, "a re-sync cycle is bracketed: CreatePruneID executes only on the Start outcome, ApplyPrune only on 'End && pruneID != \"\"', the id is reset after a successful ApplyPrune, and neither is called from the per-notification worker.")
 	for _, c := range core.CallsTo(syncFn, "cache.Client.CreatePruneID") {
